@@ -42,6 +42,10 @@ MUTS = {
  "status-header-passed": ("src/http-header-glue.c", "                continue; /* do not send Status to client */", "                /* do not send Status to client */", ["C10"]),
  "location-302": ("src/http-header-glue.c", "    if (0 == r->http_status && light_btst(r->resp_htags, HTTP_HEADER_LOCATION)){\n        r->http_status = 302;", "    if (0 == r->http_status && light_btst(r->resp_htags, HTTP_HEADER_LOCATION)){\n        r->http_status = 200;", ["C10"]),
  "backend-close-ignored": ("src/http-header-glue.c", "                                               CONST_STR_LEN(\"close\")))\n                r->keep_alive = 0;\n            break;\n          case HTTP_HEADER_CONTENT_TYPE:", "                                               CONST_STR_LEN(\"close\")))\n                r->keep_alive = r->keep_alive;\n            break;\n          case HTTP_HEADER_CONTENT_TYPE:", ["C10", "C04"]),
+ "cgi-no-pathinfo": ("src/http_cgi.c", "        if (!buffer_is_blank(&r->pathinfo)) {\n            rc |= cb(vdata, CONST_STR_LEN(\"PATH_INFO\"),\n                            BUF_PTR_LEN(&r->pathinfo));",
+                     "        if (!buffer_is_blank(&r->pathinfo)) {\n            rc |= cb(vdata, CONST_STR_LEN(\"PATH_INFO\"),\n                            BUF_PTR_LEN(&r->uri.path));", ["C09"]),
+ "cgi-server-name-port": ("src/http_cgi.c", "            const char *colon = strchr(s, ':');\n            if (colon) n = colon - s;", "            const char *colon = strchr(s, ':');\n            if (colon) n = colon - s + 1;", ["C09"]),
+ "cgi-remote-port": ("src/http_cgi.c", "li_utostrn(buf, sizeof(buf), sock_addr_get_port(r->dst_addr)));", "li_utostrn(buf, sizeof(buf), 1 + sock_addr_get_port(r->dst_addr)));", ["C09"]),
  "else-link": ("src/configparser.y", "    C->prev = B;\n    B->next = C;\n    A = C;", "    C->prev = B;\n    A = C;", ["C14"]),
 }
 
